@@ -74,7 +74,8 @@ fn gen_notes(rng: &mut Rng, pool: &[(String, Value)]) -> Vec<Note> {
         .collect()
 }
 
-fn encode_notes(notes: &[Note]) -> Vec<u8> {
+fn encode_notes(notes: &[Note]) -> (Vec<u8>, Vec<usize>) {
+    let mut ends = vec![];
     let mut dst = BytesMut::new();
     let mut enc = DownlinkNotificationEncoder;
     for n in notes {
@@ -85,8 +86,9 @@ fn encode_notes(notes: &[Note]) -> Vec<u8> {
             Note::Event(t, _) => DownlinkNotification::Event { body: t.as_bytes().to_vec() },
         };
         enc.encode(item, &mut dst).unwrap();
+        ends.push(dst.len());
     }
-    dst.to_vec()
+    (dst.to_vec(), ends)
 }
 
 fn gen_mnotes(rng: &mut Rng, pool: &[(String, Value)]) -> Vec<(MNote, Vec<u8>)> {
@@ -120,7 +122,8 @@ fn gen_mnotes(rng: &mut Rng, pool: &[(String, Value)]) -> Vec<(MNote, Vec<u8>)> 
         .collect()
 }
 
-fn encode_mnotes(notes: &[(MNote, Vec<u8>)]) -> Vec<u8> {
+fn encode_mnotes(notes: &[(MNote, Vec<u8>)]) -> (Vec<u8>, Vec<usize>) {
+    let mut ends = vec![];
     let mut dst = BytesMut::new();
     let mut enc = DownlinkNotificationEncoder;
     for (n, body) in notes {
@@ -131,21 +134,26 @@ fn encode_mnotes(notes: &[(MNote, Vec<u8>)]) -> Vec<u8> {
             MNote::Event(_) => DownlinkNotification::Event { body: body.clone() },
         };
         enc.encode(item, &mut dst).unwrap();
+        ends.push(dst.len());
     }
-    dst.to_vec()
+    (dst.to_vec(), ends)
 }
 
 /// Feed the chunks as FramedRead does (append, decode until Ok(None)); no end-of-input call: every complete frame
 /// has to come out once its last byte is there.
-fn run<D: Decoder>(dec: &mut D, chunks: &[Vec<u8>], budget: usize) -> Result<(Vec<D::Item>, usize), String>
+/// `ends`: where each frame ends in the stream (None: a mutated stream, nothing is known).  A message has to come out
+/// as soon as the last byte of its frame has been fed, and not before.
+fn run<D: Decoder>(dec: &mut D, chunks: &[Vec<u8>], budget: usize, ends: Option<&[usize]>) -> Result<(Vec<D::Item>, usize), String>
 where
     D::Error: std::fmt::Debug,
 {
     let mut buf = BytesMut::new();
     let mut out = vec![];
     let mut steps = 0usize;
+    let mut fed = 0usize;
     for ch in chunks {
         buf.extend_from_slice(ch);
+        fed += ch.len();
         loop {
             steps += 1;
             if steps > budget {
@@ -155,6 +163,12 @@ where
                 Ok(Some(m)) => out.push(m),
                 Ok(None) => break,
                 Err(e) => return Err(format!("error {:?} after {} items", e, out.len())),
+            }
+        }
+        if let Some(ends) = ends {
+            let complete = ends.iter().filter(|e| **e <= fed).count();
+            if out.len() != complete {
+                return Err(format!("after {} bytes {} messages had come out although {} frames were complete", fed, out.len(), complete));
             }
         }
     }
@@ -225,7 +239,7 @@ fn main() {
         corpus.push(gen_notes(&mut rng, &pool));
     }
     for notes in &corpus {
-        let data = encode_notes(notes);
+        let (data, ends) = encode_notes(notes);
         if notes.iter().any(|n| matches!(n, Note::Event(t, _) if t.is_empty())) {
             *kinds.entry("value:with_an_empty_event_body".into()).or_default() += 1;
         }
@@ -236,7 +250,7 @@ fn main() {
         for chunks in splits(&mut rng, &data) {
             evals += 1;
             *kinds.entry("value:chunkings".into()).or_default() += 1;
-            let r = catch(AssertUnwindSafe(|| run(&mut ValueNotificationDecoder::<Value>::default(), &chunks, 20 * (data.len() + 4))));
+            let r = catch(AssertUnwindSafe(|| run(&mut ValueNotificationDecoder::<Value>::default(), &chunks, 20 * (data.len() + 4), Some(&ends))));
             match r {
                 Ok(Ok((out, left))) => {
                     let got: Vec<Note> = out.into_iter().map(note_of).collect();
@@ -265,7 +279,7 @@ fn main() {
             evals += 1;
             *kinds.entry("value:mutated".into()).or_default() += 1;
             let chunks: Vec<Vec<u8>> = if rng.below(2) == 0 { vec![d.clone()] } else { d.iter().map(|b| vec![*b]).collect() };
-            let r = catch(AssertUnwindSafe(|| run(&mut ValueNotificationDecoder::<Value>::default(), &chunks, 20 * (d.len() + 4))));
+            let r = catch(AssertUnwindSafe(|| run(&mut ValueNotificationDecoder::<Value>::default(), &chunks, 20 * (d.len() + 4), None)));
             match r {
                 Ok(Err(e)) if e.contains("hang") => failures.push(format!("mutated value notification stream {:02x?}: {}", d, e)),
                 Err(m) => failures.push(format!("mutated value notification stream {:02x?}: the decoder panicked: {}", d, m)),
@@ -277,13 +291,13 @@ fn main() {
     // ---- map notifications ----
     for _ in 0..args.cases {
         let notes = gen_mnotes(&mut rng, &pool);
-        let data = encode_mnotes(&notes);
+        let (data, ends) = encode_mnotes(&notes);
         let expected: Vec<MNote> = notes.iter().map(|(n, _)| n.clone()).collect();
         nontrivial += 1;
         for chunks in splits(&mut rng, &data) {
             evals += 1;
             *kinds.entry("map:chunkings".into()).or_default() += 1;
-            let r = catch(AssertUnwindSafe(|| run(&mut MapNotificationDecoder::<i64, Value>::default(), &chunks, 20 * (data.len() + 4))));
+            let r = catch(AssertUnwindSafe(|| run(&mut MapNotificationDecoder::<i64, Value>::default(), &chunks, 20 * (data.len() + 4), Some(&ends))));
             match r {
                 Ok(Ok((out, left))) => {
                     let got: Vec<MNote> = out.into_iter().map(mnote_of).collect();
@@ -305,15 +319,17 @@ fn main() {
                 let msgs: Vec<_> = (0..n).map(|_| $gen(&mut rng)).collect();
                 let mut dst = BytesMut::new();
                 let mut e = $enc;
+                let mut ends = vec![];
                 for m in &msgs {
                     e.encode(m.clone(), &mut dst).unwrap();
+                    ends.push(dst.len());
                 }
                 let data = dst.to_vec();
                 nontrivial += 1;
                 for chunks in splits(&mut rng, &data) {
                     evals += 1;
                     *kinds.entry(format!("{}:chunkings", $name)).or_default() += 1;
-                    let r = catch(AssertUnwindSafe(|| run(&mut $dec, &chunks, 20 * (data.len() + 4))));
+                    let r = catch(AssertUnwindSafe(|| run(&mut $dec, &chunks, 20 * (data.len() + 4), Some(&ends))));
                     let sizes = chunks.iter().map(|c| c.len()).collect::<Vec<_>>();
                     match r {
                         Ok(Ok((out, left))) => {
@@ -399,6 +415,7 @@ fn main() {
         let n = rng.range(1, 4) as usize;
         let mut expected: Vec<StoreInitMessage<Value>> = vec![];
         let mut dst = BytesMut::new();
+        let mut ends = vec![];
         for _ in 0..n {
             if rng.below(4) == 0 {
                 expected.push(StoreInitMessage::InitComplete);
@@ -408,6 +425,7 @@ fn main() {
                 expected.push(StoreInitMessage::Command(v.clone()));
                 RawValueStoreInitEncoder::default().encode(StoreInitMessage::Command(t.as_bytes().to_vec()), &mut dst).unwrap();
             }
+            ends.push(dst.len());
         }
         let data = dst.to_vec();
         nontrivial += 1;
@@ -415,7 +433,7 @@ fn main() {
             evals += 1;
             *kinds.entry("typed_value_store_init:chunkings".into()).or_default() += 1;
             let sizes = chunks.iter().map(|c| c.len()).collect::<Vec<_>>();
-            match catch(AssertUnwindSafe(|| run(&mut ValueStoreInitDecoder::<Value>::default(), &chunks, 20 * (data.len() + 4)))) {
+            match catch(AssertUnwindSafe(|| run(&mut ValueStoreInitDecoder::<Value>::default(), &chunks, 20 * (data.len() + 4), Some(&ends)))) {
                 Ok(Ok((out, left))) => {
                     if out != expected || left != 0 {
                         failures.push(format!("typed_value_store_init {:?} in chunks of {:?}: decoded {:?} with {} bytes left", expected, sizes, out, left));
@@ -430,6 +448,7 @@ fn main() {
         let n = rng.range(1, 4) as usize;
         let mut expected: Vec<StoreInitMessage<MapMessage<i64, Value>>> = vec![];
         let mut dst = BytesMut::new();
+        let mut ends = vec![];
         for _ in 0..n {
             if rng.below(4) == 0 {
                 expected.push(StoreInitMessage::InitComplete);
@@ -442,6 +461,7 @@ fn main() {
                     .encode(StoreInitMessage::Command(MapMessage::Update { key: k.to_string().into_bytes(), value: t.as_bytes().to_vec() }), &mut dst)
                     .unwrap();
             }
+            ends.push(dst.len());
         }
         let data = dst.to_vec();
         nontrivial += 1;
@@ -449,7 +469,7 @@ fn main() {
             evals += 1;
             *kinds.entry("typed_map_store_init:chunkings".into()).or_default() += 1;
             let sizes = chunks.iter().map(|c| c.len()).collect::<Vec<_>>();
-            match catch(AssertUnwindSafe(|| run(&mut MapStoreInitDecoder::<i64, Value>::default(), &chunks, 20 * (data.len() + 4)))) {
+            match catch(AssertUnwindSafe(|| run(&mut MapStoreInitDecoder::<i64, Value>::default(), &chunks, 20 * (data.len() + 4), Some(&ends)))) {
                 Ok(Ok((out, left))) => {
                     if out != expected || left != 0 {
                         failures.push(format!("typed_map_store_init {:?} in chunks of {:?}: decoded {:?} with {} bytes left", expected, sizes, out, left));
@@ -484,7 +504,7 @@ fn main() {
     let meta = J::obj(vec![
         ("evaluations", J::I(evals as i128)),
         ("distinct_nontrivial", J::I(nontrivial as i128)),
-        ("rule", J::s("downlink notification codec, real code only: sequences of 1-5 notifications (linked / synced / unlinked / event; event bodies from a pool of Recon texts including the empty body, numbers, texts, blobs, records with attributes; map events update / remove / clear / take / drop with Recon keys and values) written by DownlinkNotificationEncoder and read by ValueNotificationDecoder<Value> / MapNotificationDecoder<i64, Value> under every single split point, one byte per read and three random multi-splits: exactly the notifications written come out, the last one without any byte after it, nothing is left in the buffer; two byte mutations per sequence must not panic or hang")),
+        ("rule", J::s("downlink notification codec, real code only: sequences of 1-5 notifications (linked / synced / unlinked / event; event bodies from a pool of Recon texts including the empty body, numbers, texts, blobs, records with attributes; map events update / remove / clear / take / drop with Recon keys and values) written by DownlinkNotificationEncoder and read by ValueNotificationDecoder<Value> / MapNotificationDecoder<i64, Value> under every single split point, one byte per read and three random multi-splits: exactly the notifications written come out, each as soon as the last byte of its frame has been fed and not before, nothing is left in the buffer; two byte mutations per sequence must not panic or hang")),
         ("structures", J::counts(&kinds)),
         ("samples", J::A(vec![])),
         ("direct_failures", J::A(failures.iter().take(40).map(|f| J::s(f.chars().take(600).collect::<String>())).collect())),
